@@ -12,4 +12,5 @@ INVARIANT MuteWhenNone
 INVARIANT TargetFresh
 INVARIANT ExchangeOk
 INVARIANT Pauses
+INVARIANT ArgCheck
 CHECK_DEADLOCK FALSE
